@@ -9,8 +9,11 @@ in the middle or at the end, control codes doubled / single / mixed per code; ro
 the basic / special / extended tables (extended after a stand-in) incl. leading blanks, double blanks, the transparent
 space, trailing blanks, characters erased by a backspace; drop / non-drop timecode; inter-line gaps 0..300 frames.
 NOT generated (counted nowhere because never produced): mid-row codes inside a row (their blank cell makes the expected
-text ambiguous; they are covered by C05), offsets, simulate_roll_up.
-Observation (public API): SCCReader().read(stream) -> captions (start, end, text with breaks).
+text ambiguous; they are covered by C05), offsets, simulate_roll_up (for the judged read).
+Options and histories: every program is read with a `lang` drawn from LANGS; a third by a reader OBJECT that has already
+read 1-2 other files (mostly rejected ones: a later timecode written hh:mm:ss.ff, a row of more than 32 columns; with
+their own lang / offset / simulate_roll_up) - the expectation depends on neither.
+Observation (public API): reader.read(stream, lang=...) -> captions (start, end, text with breaks).
 Property oracle: Coq ok_c16_screens (coq/spec/SpecScc16.v) on the implementation's (start, end, text): every character
 once and in order, rows kept together, ordered, start < end, each screen ends where the next begins, and captions share a
 span only inside one displayed buffer (the number of distinct screens equals the number of buffers the program displays).
@@ -197,6 +200,55 @@ def gen_program(rng):
             "shapes": shapes, "final_mode": mode}
 
 
+LANGS = ["en-US", "en-US", "fr", "de-DE", "es-419", "und", "x"]
+
+
+def rejected_file(rng, prog):
+    """a file the reader rejects after having decoded part of it: a later line's timecode written hh:mm:ss.ff (timing
+    error at the first time lookup of that line), or a row of more than 32 columns (length error at the end)"""
+    lines = prog["stream"].split("\n\n")[1:-1] if prog["stream"].endswith("\n\n") else prog["stream"].split("\n\n")[1:]
+    lines = [l for l in lines if l.strip()]
+    if rng.random() < 0.5:
+        if len(lines) < 2:
+            lines = lines + ["00:59:00:00\t" + " ".join(g.dbl([g.RU2], True) + g.dbl([g.CR], True) + g.text_words("tail"))]
+        j = rng.randrange(1, len(lines))
+        tc, rest = lines[j].split("\t", 1)
+        lines[j] = tc[:8] + "." + tc[9:] + "\t" + rest
+        kind = "bad-timecode"
+    else:
+        n = rng.choice([33, 34, 40])
+        text = "".join(rng.choice("abcdefghijklmnopqrstuvwxyz") for _ in range(n))
+        cmd = rng.choice([g.RU2, g.RU3, g.RDC])
+        ws = g.dbl([cmd], True) + (g.dbl([g.CR], True) if cmd != g.RDC else []) + g.dbl([g.pac(15)], True) + g.text_words(text)
+        lines.insert(rng.randrange(0, len(lines) + 1), "00:58:%02d:00\t" % rng.randint(0, 59) + " ".join(ws))
+        kind = "long-row"
+    return "Scenarist_SCC V1.0\n\n" + "\n\n".join(lines) + "\n\n", kind
+
+
+def gen_history(rng, progs_pool):
+    """earlier reads on the same reader object: rejected files (the reader has half-decoded captions when it raises),
+    well-formed programs, with their own options"""
+    h = []
+    kinds = []
+    for _ in range(rng.choice([1, 1, 2])):
+        other = gen_program(rng)
+        r = rng.random()
+        if r < 0.7:
+            st, kind = rejected_file(rng, other)
+        else:
+            st, kind = other["stream"], "well-formed"
+        kw = {}
+        if rng.random() < 0.3:
+            kw["lang"] = rng.choice(LANGS)
+        if rng.random() < 0.2:
+            kw["offset"] = rng.choice([1, 2, 30])
+        if rng.random() < 0.15:
+            kw["simulate_roll_up"] = True
+        h.append([st, kw])
+        kinds.append(kind)
+    return h, kinds
+
+
 def obs3(o):
     if isinstance(o, Ok):
         # blanks at the end of a line are not displayable characters (the reader strips most of them; one survives in
@@ -230,7 +282,23 @@ def run(ctx):
             "rows_with_leading_or_double_blank": 0}
     res["distribution"] = dist
     progs = [gen_program(rng) for _ in range(ctx.n(1200, 40000))]
-    obs = [sccobs.observe(p["stream"]) for p in progs]
+    # options and histories: the `lang` option varies in every stream; a third of the programs are read by a reader
+    # object that has already read other files (mostly rejected ones). The expectation does not depend on either.
+    dist["lang"] = {}
+    dist["history"] = {"none": 0}
+    for p in progs:
+        p["lang"] = rng.choice(LANGS)
+        dist["lang"][p["lang"]] = dist["lang"].get(p["lang"], 0) + 1
+        p["history"] = None
+        if rng.random() < 0.33:
+            p["history"], kinds = gen_history(rng, progs)
+            for k in kinds:
+                dist["history"][k] = dist["history"].get(k, 0) + 1
+        else:
+            dist["history"]["none"] += 1
+    houts = []
+    obs = [sccobs.observe(p["stream"], lang=p["lang"], history=p["history"], outcomes=houts) for p in progs]
+    dist["earlier_reads_ended"] = {k: houts.count(k) for k in sorted(set(houts))}
     models = sccobs.model_batch([(p["stream"], 0) for p in progs])
     oks = oracle_batch([(1601, [p["rows"], p["buffers"], obs3(o)]) for p, o in zip(progs, obs)])
     evreq = [(i, (1602, p["events"])) for i, p in enumerate(progs) if p["events"] is not None]
@@ -248,7 +316,8 @@ def run(ctx):
         dist["rows_with_leading_or_double_blank"] += sum(1 for r in p["rows"] if r.startswith(" ") or "  " in r)
         n_out = len(o.v) if isinstance(o, Ok) else -1
         dist["captions_out"][n_out] = dist["captions_out"].get(n_out, 0) + 1
-        desc = {k: p[k] for k in ("doubled", "drop", "rows", "buffers")}
+        desc = {k: p[k] for k in ("doubled", "drop", "rows", "buffers", "lang")}
+        desc["earlier_reads_on_the_reader"] = len(p["history"] or [])
         if len(p["rows"]) >= 2:
             res["nontrivial"].add(p["stream"])
         o3 = obs3(o)
@@ -261,6 +330,7 @@ def run(ctx):
                                                f"captions do not form that many distinct (start, end) screens"}[kind]
             res["violations"].append({"kind": kind, "replay": "stream", "what": what, "input": desc,
                                       "stream": p["stream"], "rows": p["rows"], "buffers": p["buffers"],
+                                      "lang": p["lang"], "history": p["history"],
                                       "impl_obs": [[str(c[0]), str(c[1]), c[2]] for c in o3.v] if isinstance(o3, Ok)
                                       else repr(o)})
             continue
@@ -280,7 +350,10 @@ def run(ctx):
                                              "model": repr(em)[:300]})
         else:
             dist["event_model_not_expressible"] += 1
-    res["rule"] = ("programs of 1-8 rows mixing roll-up 2/3/4 and paint-on: mode command re-sent (before or after the "
+    res["rule"] = ("every program read with lang= one of %s; a third by a reader object that has already read 1-2 other "
+                   "files (70%% rejected: a later timecode written hh:mm:ss.ff, or a row of more than 32 columns; else "
+                   "well-formed; own lang / offset / simulate_roll_up options); " % (sorted(set(LANGS)),) +
+                   "programs of 1-8 rows mixing roll-up 2/3/4 and paint-on: mode command re-sent (before or after the "
                    "carriage return), depth changes, mode switches, rows with / without own flush, with / without "
                    "preamble, all preamble styles, rows split over lines, EDM inside / at the end, doubling true / false / "
                    "mixed, 1-32 cells from every table code incl. leading / double / trailing blanks, transparent space, "
@@ -302,6 +375,6 @@ def run(ctx):
 
 
 def replay(ctx, rec):
-    o = sccobs.observe(rec["stream"])
+    o = sccobs.observe(rec["stream"], lang=rec.get("lang"), history=rec.get("history"))
     ok = oracle1(1601, [rec["rows"], rec["buffers"], obs3(o)])
     return ok[0] != 1, repr(obs3(o))[:600]
